@@ -13,12 +13,7 @@
 namespace c18
 {
 
-struct Msg
-{
-  bool text = true;
-  std::string payload;
-};
-inline bool operator==(const Msg &a, const Msg &b) { return a.text == b.text && a.payload == b.payload; }
+using refws::Msg;
 
 struct Stream
 {
@@ -32,6 +27,10 @@ struct Stream
   std::string closeReason;
   bool hasInvalidText = false; // the last message is a text message that is not UTF-8
   std::string invalidPayload;
+  // offset just behind the first frame that makes the receiving endpoint start closing (the
+  // final frame of the invalid text message or the close frame); npos if there is none
+  std::size_t triggerEnd = std::string::npos;
+  std::vector<std::size_t> pingEnds; // offset just behind every ping frame (parallel to `pings`)
   // features (for labels / the non-trivial rule)
   int fragmentedMsgs = 0;      // messages sent in >= 2 frames
   int controlInsideMsg = 0;    // control frames between two fragments of one message
@@ -175,6 +174,7 @@ inline void genControls(pbt::Src &src, Stream &s, const GenOpts &go, bool inside
     if (ping) s.pings.push_back(f.payload);
     if (insideMsg) ++s.controlInsideMsg;
     s.add(f);
+    if (ping) s.pingEnds.push_back(s.wire.size());
   }
 }
 
@@ -227,6 +227,7 @@ inline Stream genStream(pbt::Src &src, const GenOpts &go)
       s.hasInvalidText = true;
       s.invalidPayload = m.payload;
       addMessage(src, s, go, m);
+      s.triggerEnd = s.wire.size();
       break;
     }
     m.text = src.coin();
@@ -272,6 +273,7 @@ inline Stream genStream(pbt::Src &src, const GenOpts &go)
     }
     drawKey(src, f, go.masked);
     s.add(f);
+    if (s.triggerEnd == std::string::npos) s.triggerEnd = s.wire.size();
   }
   return s;
 }
